@@ -9,6 +9,7 @@
 //	dialrace <id> <ms>             DialAsync with a dial timeout whose connect completes (EPOLLOUT, SO_ERROR 0) while DialAsync is
 //	                               still between registering the descriptor and arming the timeout; then the timeout elapses
 //	addx <id> <tcp|unix>           AddConn of a conn that was closed before (Close, then AddConn)
+//	dialc <id> <inprog|now> 0      DialAsync whose success callback closes the conn (Close inside the dial callback)
 //	addcr <id> <id2>               conn id is closed inside its open notification; conn id2 gets its descriptor number and is
 //	                               added before the AddConn of id goes on
 //	hupbusy <id> <p1> <p2>         data event, then — with AsyncReadInPoller while the read task is still inside the data
@@ -484,15 +485,26 @@ func (s *sess) onDial(id int, nc *nbio.Conn, err error) {
 		s.orc = append(s.orc, fmt.Sprintf("c03-dial conn %d: success reported but the connect did not succeed", ci.id))
 	}
 	s.dials = append(s.dials, fmt.Sprintf("%d:%s", ci.id, ec))
+	if err == nil && ci.cio && nc != nil {
+		// Close from inside the success callback: the dial is over, the close path must not report it again
+		s.mu.Unlock()
+		_ = nc.Close()
+		s.mu.Lock()
+	}
 }
 
 // settle waits until everything queued on the engine's async queue so far has run.
 func (s *sess) settle() {
-	ch := make(chan struct{})
-	s.g.Async(func() { close(ch) })
-	select {
-	case <-ch:
-	case <-time.After(3 * time.Second):
+	// three rounds: a callback that runs from the queue may itself queue a notification (a dial callback that closes the
+	// conn queues the close notification) — what it queued runs before the next round's marker
+	for round := 0; round < 3; round++ {
+		ch := make(chan struct{})
+		s.g.Async(func() { close(ch) })
+		select {
+		case <-ch:
+		case <-time.After(60 * time.Second):
+			return
+		}
 	}
 }
 
@@ -742,10 +754,10 @@ func (s *sess) stop(e *lp.Exec) bool {
 	s.stopped = true
 	done := make(chan struct{})
 	go func() { s.g.Stop(); close(done) }()
-	select {
-	case <-done:
+	if vsys.WaitPatient(done, 5*time.Second) { // 5 s in which this process was scheduled, however long that takes
 		return true
-	case <-time.After(5 * time.Second):
+	}
+	{
 		e.Oracle("c03-close-once", "Stop did not return within 5s (a close notification is missing)")
 		if os.Getenv("HLIFE_DUMP") != "" {
 			buf := make([]byte, 1<<20)
@@ -871,7 +883,7 @@ func exec(e *lp.Exec) {
 		bad := func() { e.P("> %s", line); e.P("bad-op") }
 		if s.small {
 			switch f[0] {
-			case "addc", "addx", "addcr", "addudp", "dialx", "dialrace", "acc", "rdial", "hupbusy", "dgram":
+			case "addc", "addx", "addcr", "addudp", "dialx", "dialc", "dialrace", "acc", "rdial", "hupbusy", "dgram":
 				bad() // these ops need a conn that got into the table
 				continue
 			}
@@ -1017,7 +1029,15 @@ func exec(e *lp.Exec) {
 			e.Count("conns", "dial-race")
 			key.WriteString("Dr,")
 			nontrivial = true
-		case "dial", "dialx":
+		case "dial", "dialx", "dialc":
+			closeInCb := f[0] == "dialc"
+			if closeInCb {
+				if len(f) != 4 || (f[2] != "inprog" && f[2] != "now") || f[3] != "0" {
+					bad()
+					continue
+				}
+				f = []string{"dial", f[1], f[2], f[3]}
+			}
 			if f[0] == "dialx" {
 				if len(f) != 2 {
 					bad()
@@ -1030,7 +1050,7 @@ func exec(e *lp.Exec) {
 				continue
 			}
 			ms, _ := strconv.Atoi(f[3])
-			ci = &conn{id: id, kind: "dial", addr: f[2], dialOK: f[2] == "now"}
+			ci = &conn{id: id, kind: "dial", addr: f[2], dialOK: f[2] == "now", cio: closeInCb}
 			s.mu.Lock()
 			s.conns[id] = ci
 			s.byFd[-1] = ci
@@ -1113,6 +1133,9 @@ func exec(e *lp.Exec) {
 			}
 			e.P("> %s", line)
 			s.finSeen(e, ci, fl, ret)
+			if ci.cio {
+				causes = append(causes, "nil") // the success callback closes the conn
+			}
 			s.firstCause(e, ci, was, causes...)
 			s.result(e, "dev", ret, ci, 0)
 			fmt.Fprintf(&key, "d%x%s,", fl, f[3][:1])
@@ -1142,7 +1165,11 @@ func exec(e *lp.Exec) {
 			}
 			e.P("> %s", line)
 			s.finSeen(e, ci, fl, ret)
-			s.firstCause(e, ci, was, "eof", "epipe", "reset")
+			if ci.cio {
+				s.firstCause(e, ci, was, "eof", "epipe", "reset", "nil")
+			} else {
+				s.firstCause(e, ci, was, "eof", "epipe", "reset")
+			}
 			s.result(e, "ev", ret, ci, 0)
 			fmt.Fprintf(&key, "e%x,", fl)
 			nontrivial = true
@@ -1500,7 +1527,7 @@ func exec(e *lp.Exec) {
 				s.mu.Unlock()
 			}
 			myid := id
-			err := s.g.DialAsyncTimeout("tcp", addr, 2*time.Second, func(nc *nbio.Conn, err error) { s.onDial(myid, nc, err) })
+			err := s.g.DialAsyncTimeout("tcp", addr, 30*time.Second, func(nc *nbio.Conn, err error) { s.onDial(myid, nc, err) })
 			if err != nil {
 				s.mu.Lock()
 				ci.dials = append(ci.dials, errClass(err))
@@ -1649,9 +1676,13 @@ func gen(g *lp.Gen) {
 				g.P("dialx %d", id)
 				conns[id] = &ci{kind: "dial", dialed: true, closed: true}
 			case r < 13:
+				k := g.Pick("inprog", "inprog", "now")
+				g.P("dialc %d %s 0", id, k)
+				conns[id] = &ci{kind: "dial", dialed: k == "now", closed: k == "now"}
+			case r < 15:
 				g.P("dialrace %d %d", id, 1+g.Intn(3))
 				conns[id] = &ci{kind: "dial", dialed: true}
-			case r < 16:
+			case r < 17:
 				g.P("addx %d %s", id, g.Pick("tcp", "unix"))
 				conns[id] = &ci{kind: "add", typ: "unix", closed: true}
 			case r < 45:
